@@ -200,3 +200,25 @@ pub open spec fn term_step(b0: Buffer, c0: Caret, b1: Buffer, c1: Caret, g: int)
 pub open spec fn row_in_view(b: Buffer, c: Caret) -> bool {
     first_visible(b) <= c.pos.y < first_visible(b) + b.terminal_state.size.height
 }
+pub proof fn lemma_same_shape_trans(a: Buffer, b: Buffer, c: Buffer)
+    requires buf_same_shape(a, b), buf_same_shape(b, c),
+    ensures buf_same_shape(a, c),
+{
+    assert forall|i: int, k: int| 0 <= i < a.layers@.len() && layer_ok(a.layers@[i], k) && k >= 0x10_0001 && a.size.width <= k
+        implies #[trigger] layer_ok(c.layers@[i], k) by {
+        assert(layer_ok(b.layers@[i], k));
+    }
+    assert forall|i: int| 0 <= i < a.layers@.len() implies layer_frame(#[trigger] a.layers@[i], c.layers@[i]) by {
+        assert(layer_frame(a.layers@[i], b.layers@[i]));
+        assert(layer_frame(b.layers@[i], c.layers@[i]));
+    }
+}
+// an operation that only rewrites cells preserves the state invariant for the same caret
+pub proof fn lemma_same_shape_inv(a: Buffer, b: Buffer, c: Caret, k: int)
+    requires buf_same_shape(a, b), term_inv(a, c, k),
+    ensures term_inv(b, c, k),
+{
+    assert forall|i: int| 0 <= i < b.layers@.len() implies layer_ok(#[trigger] b.layers@[i], k) by {
+        assert(layer_ok(a.layers@[i], k));
+    }
+}
